@@ -113,10 +113,11 @@ Definition current : variant := repaired.        (* <- the one-line switch *)
    starts = takewhile(start <= len(chunk), iterate(start -> start + from_bytes(chunk[start:start+4]) + 4, 0)) *)
 Definition find_next (chunk : list Z) (start : Z) : Z :=
   start + from_le (slice start (start + 4) chunk) + 4.
+Definition in_chunk (start chunk_len : Z) : bool := start <=? chunk_len.     (* the takewhile test *)
 Fixpoint find_starts_fuel (fuel : nat) (chunk : list Z) (start : Z) : option (list Z) :=
   match fuel with
   | O => None                                                      (* out of fuel: distinct error *)
-  | S f => if start <=? len chunk
+  | S f => if in_chunk start (len chunk)
            then option_map (cons start) (find_starts_fuel f chunk (find_next chunk start))
            else Some []
   end.
@@ -135,6 +136,9 @@ Definition buf_size (b : buf) : Z := len (bf_data b).
 
 (* --- fixed-offset fields and derived offsets (BamBufferExtractor) --- *)
 Definition get_uint (d : list Z) (s off n : Z) : Z := from_le (slice (s + off) (s + off + n) d).
+(* a typed field read described by (offset, number of bytes, signed) *)
+Definition read_field (f : Z * Z * bool) (d : list Z) (s : Z) : Z :=
+  let '(off, n, sg) := f in if sg then signed32 (get_uint d s off n) else get_uint d s off n.
 Definition m_refid (d : list Z) (s : Z) : Z := signed32 (get_uint d s 4 4).
 Definition m_pos (d : list Z) (s : Z) : Z := signed32 (get_uint d s 8 4).
 Definition m_l_read_name (d : list Z) (s : Z) : Z := nthZ d (s + 12).
@@ -243,6 +247,7 @@ Definition read_file (st : list Z) : option (list (list Z) * list Z * buf) :=
 (* --- chunked reading of a gzip stream: NumpyFileReader.read_chunk in prepend mode, driven by
        NpDataclassReader.read_chunks = takewhile(len, repeat(read_chunk)).
        [rest] = bytes not yet read from the decompressed stream, [prepend] = carried incomplete tail. *)
+Definition is_finished (bytes_read k : Z) : bool := bytes_read <? k.      (* _get_buffer: self._is_finished *)
 Fixpoint read_chunks_fuel (fuel : nat) (k : Z) (rest prepend : list Z) : option (list buf) :=
   match fuel with
   | O => None
@@ -260,7 +265,7 @@ Fixpoint read_chunks_fuel (fuel : nat) (k : Z) (rest prepend : list Z) : option 
                end
         end
       else
-        let finished := len raw <? k in
+        let finished := is_finished (len raw) k in
         let chunk := prepend ++ (if finished then add_newline raw else raw) in
         match from_raw_buffer chunk with
         | None => None
